@@ -72,6 +72,8 @@ type Step struct {
 	// EarlyWhen: with DevStepEarly the step is also offered (as a deviation) at every
 	// quiescent point where this weaker guard holds, i.e. before its default instant.
 	EarlyWhen func(w *World) bool
+	// Urgent: by default the step is performed as soon as its guard holds, before pending network events.
+	Urgent bool
 }
 
 type Node struct {
@@ -673,6 +675,23 @@ func (w *World) envOptions() []envOpt {
 		}
 	}
 	w.pruneLive()
+	// 0. urgent scripted step
+	if w.stepPos < len(w.sc.Steps) && w.sc.Steps[w.stepPos].Urgent {
+		st := w.sc.Steps[w.stepPos]
+		pos := w.stepPos
+		if st.When == nil || safeWhen(st.When, w) {
+			addDef(envOpt{label: "step " + st.Name, cost: 1, do: func() {
+				w.stepPos = pos + 1
+				w.logf("STEP %s", st.Name)
+				defer func() {
+					if v := recover(); v != nil {
+						w.logf("STEP %s not applicable in this state (%v)", st.Name, v)
+					}
+				}()
+				st.Do(w)
+			}})
+		}
+	}
 	// 1. replies
 	for _, m := range w.live {
 		m := m
@@ -755,7 +774,7 @@ func (w *World) envOptions() []envOpt {
 		}
 	}
 	// 3. scripted step
-	if w.stepPos < len(w.sc.Steps) {
+	if w.stepPos < len(w.sc.Steps) && !w.sc.Steps[w.stepPos].Urgent {
 		st := w.sc.Steps[w.stepPos]
 		pos := w.stepPos
 		do := func() {
